@@ -1,3 +1,1187 @@
 import ViaProofs.Statements
+import ViaProofs.Frag.Compose
+/-
+  C05 — arbitrary bytes never crash, corrupt memory, throw or hang the receivers.
+
+  What is proved here, for EVERY byte string, every configuration and every receiver state:
+  * totality / termination: every function of the model is a total Lean function (structural recursion
+    or well-founded recursion with a checked measure — `MH.fresh`);
+  * `receive_suffix`: a receive step returns a suffix of the buffer it was given: it never reads or
+    consumes outside the buffer (`used ≤ |read|`);
+  * `receive_progress`: from a state satisfying the reachable-state invariant `Ok`, a receive step on a
+    non-empty buffer either reports INVALID or consumes at least one byte;
+  * `Ok` holds initially and is preserved by `receive` followed by the server's / client's reaction
+    (`Ok` also records that the header block is complete only together with the whole head and that no
+    body bytes are stored before the head is complete: without these two facts `receive_progress` and
+    `ok_step` fail for unreachable states);
+  * `readLoop_done`: therefore the per-read loop of `http_server::receive_handler` and of
+    `http_client::receive_handler` needs at most `|read|` calls of `receive`: with `|read| + 1` units
+    of fuel it always ends because the buffer is exhausted or the message is INVALID, never because
+    the fuel ran out.  (Before the repair of `response_receiver` this was false for the client.)
+  Memory safety of the C++ itself is outside the model: it is observed by the sanitizer builds of the
+  correspondence harness.
+-/
 namespace Via
+
+namespace C05
+
+/-! ### a parser that returns `true` has consumed at least one byte -/
+
+theorem blankLf_true_lt (x : MH) (buf : Bytes) (ht : (Cmp.blankLf x buf).2.2 = true) :
+    (Cmp.blankLf x buf).2.1.length < buf.length := by
+  cases buf with
+  | nil => simp [Cmp.blankLf] at ht
+  | cons d ds =>
+    simp only [Cmp.blankLf] at ht ⊢
+    split at ht
+    · simp at ht
+    · rename_i h; simp [h]
+
+theorem MH_blank_true_lt (cfg : Cfg) (h : MH) (buf : Bytes) (ht : (MH.blank cfg h buf).2.2 = true) :
+    (MH.blank cfg h buf).2.1.length < buf.length := by
+  cases buf with
+  | nil => simp [MH.blank] at ht
+  | cons c cs =>
+    rw [Cmp.MH_blank_eq] at ht ⊢
+    by_cases h1 : (!h.blankCr && !isEol c) = true
+    · rw [if_pos h1] at ht; simp at ht
+    · simp only [h1, Bool.false_eq_true, if_false] at ht ⊢
+      by_cases h2 : (!(!h.blankCr && c == 13) && cfg.strict && !h.blankCr) = true
+      · rw [if_pos h2] at ht; simp at ht
+      · simp only [h2, Bool.false_eq_true, if_false] at ht ⊢
+        by_cases h3 : (!h.blankCr && c == 13) = true
+        · simp only [h3, if_true] at ht ⊢
+          have := blankLf_true_lt _ _ ht
+          simp only [List.length_cons]; omega
+        · simp only [h3, Bool.false_eq_true, if_false] at ht ⊢
+          exact blankLf_true_lt _ _ ht
+
+theorem MH_fresh_true_lt (cfg : Cfg) (h : MH) (buf : Bytes) (ht : (MH.fresh cfg h buf).2.2 = true) :
+    (MH.fresh cfg h buf).2.1.length < buf.length := by
+  generalize hn : buf.length = n
+  induction n using Nat.strongRecOn generalizing buf h with
+  | _ n ih =>
+    cases buf with
+    | nil => simp [MH.fresh_nil] at ht
+    | cons c cs =>
+      rw [MH.fresh_cons] at ht ⊢
+      by_cases he : isEol c = true
+      · simp only [he, if_true] at ht ⊢
+        rw [← hn]
+        exact MH_blank_true_lt cfg h _ ht
+      · simp only [he] at ht ⊢
+        have hprog := FL.loop_progress cfg {} c cs (by decide)
+        generalize hra : FL.loop cfg {} (c :: cs) = ra at *
+        by_cases hok : ra.2.2 = true
+        · simp only [hok, Bool.not_true, Bool.false_eq_true, if_false] at ht ⊢
+          by_cases hrest : ra.2.1.isEmpty = true
+          · simp [hrest] at ht
+          · simp only [hrest] at ht ⊢
+            by_cases hc : (MH.commit cfg h ra.1).2 = true
+            · simp only [hc, Bool.not_true, Bool.false_eq_true, if_false] at ht ⊢
+              have := ih ra.2.1.length (by simp only [List.length_cons] at hn; omega)
+                (MH.commit cfg h ra.1).1 ra.2.1 ht rfl
+              simp only [List.length_cons] at hn
+              omega
+            · simp [hc] at ht
+        · simp [hok] at ht
+
+theorem MH_finish_true_lt (cfg : Cfg) (h : MH) (r : FL × Bytes × Bool)
+    (ht : (MH.finish cfg h r).2.2 = true) : (MH.finish cfg h r).2.1.length < r.2.1.length := by
+  unfold MH.finish at ht ⊢
+  by_cases hok : r.2.2 = true
+  · simp only [hok, Bool.not_true, Bool.false_eq_true, if_false] at ht ⊢
+    by_cases hrest : r.2.1.isEmpty = true
+    · simp [hrest] at ht
+    · simp only [hrest] at ht ⊢
+      by_cases hc : (MH.commit cfg h r.1).2 = true
+      · simp only [hc, Bool.not_true, Bool.false_eq_true, if_false] at ht ⊢
+        exact MH_fresh_true_lt cfg _ _ ht
+      · simp [hc] at ht
+  · simp [hok] at ht
+
+theorem MH_parse_true_lt (cfg : Cfg) (h : MH) (buf : Bytes) (ht : (MH.parse cfg h buf).2.2 = true) :
+    (MH.parse cfg h buf).2.1.length < buf.length := by
+  by_cases hbc : h.blankCr = true
+  · have hp : MH.parse cfg h buf = MH.blank cfg h buf := by simp [MH.parse, hbc]
+    rw [hp] at ht ⊢
+    exact MH_blank_true_lt cfg h buf ht
+  · have hbc' : h.blankCr = false := by simpa using hbc
+    by_cases hst : h.field.started = true
+    · cases buf with
+      | nil => simp [MH.parse_nil] at ht
+      | cons c cs =>
+        rw [MH.parse_started cfg h c cs hbc' hst] at ht ⊢
+        have := MH_finish_true_lt cfg h _ ht
+        have := FL.loop_rest_le cfg (h.field.peek (c :: cs)) (c :: cs)
+        omega
+    · have hp : MH.parse cfg h buf = MH.fresh cfg h buf := by simp [MH.parse, hbc', hst]
+      rw [hp] at ht ⊢
+      exact MH_fresh_true_lt cfg h buf ht
+
+
+theorem CK_lf_true_lt (k : CK) (x : Bytes) (ht : (Cmp.CK_lf k x).2.2 = true) :
+    (Cmp.CK_lf k x).2.1.length < x.length := by
+  cases x with
+  | nil => simp [Cmp.CK_lf] at ht
+  | cons d ds =>
+    simp only [Cmp.CK_lf] at ht ⊢
+    by_cases h : (d != 10) = true
+    · rw [if_pos h] at ht; simp at ht
+    · simp [h]
+
+theorem CK_tail_true_lt (cfg : Cfg) (k : CK) (x : Bytes) (ht : (Cmp.CK_tail cfg k x).2.2 = true) :
+    (Cmp.CK_tail cfg k x).2.1.length < x.length := by
+  cases x with
+  | nil => simp [Cmp.CK_tail] at ht
+  | cons c cs =>
+    simp only [Cmp.CK_tail] at ht ⊢
+    by_cases h1 : (!k.dataCr && c == 13) = true
+    · simp only [h1, if_true] at ht ⊢
+      have := CK_lf_true_lt _ _ ht
+      simp only [List.length_cons]; omega
+    · simp only [h1, Bool.false_eq_true, if_false] at ht ⊢
+      by_cases h2 : (cfg.strict && !k.dataCr) = true
+      · rw [if_pos h2] at ht; simp at ht
+      · simp only [h2, Bool.false_eq_true, if_false] at ht ⊢
+        exact CK_lf_true_lt _ _ ht
+
+theorem CK_parseData_true_lt (cfg : Cfg) (k : CK) (buf : Bytes)
+    (ht : (CK.parseData cfg k buf).2.2 = true) : (CK.parseData cfg k buf).2.1.length < buf.length := by
+  rw [Cmp.CK_parseData_eq] at ht ⊢
+  by_cases h : buf.length > k.hdr.size - k.data.length
+  · simp only [h, if_true] at ht ⊢
+    have := CK_tail_true_lt cfg _ _ ht
+    simp only [List.length_drop] at this
+    omega
+  · simp [h] at ht
+
+theorem CK_body_true_lt (cfg : Cfg) (k : CK) (buf : Bytes)
+    (ht : (Cmp.CK_body cfg k buf).2.2 = true) : (Cmp.CK_body cfg k buf).2.1.length < buf.length := by
+  unfold Cmp.CK_body at ht ⊢
+  by_cases hl : k.isLast = true
+  · simp only [hl, if_true] at ht ⊢
+    by_cases hr : (MH.parse cfg k.trailers buf).2.2 = true
+    · simp only [hr, Bool.not_true, Bool.false_eq_true, if_false]
+      exact MH_parse_true_lt cfg _ _ hr
+    · simp [hr] at ht
+  · simp only [hl, Bool.false_eq_true, if_false] at ht ⊢
+    exact CK_parseData_true_lt cfg k buf ht
+
+/-- two-phase composition: when the second phase consumes a byte whenever it succeeds, so does the
+    composition (the first phase never gives bytes back) -/
+theorem seq2_true_lt {S L : Type} (get : S → L) (set : S → L → S) (lvalid : L → Bool)
+    (P1 : L → Bytes → L × Bytes × Bool) (P2 : S → Bytes → S × Bytes × Bool) (good : S → Prop)
+    (hset : ∀ s l, good s → good (set s l)) (h1 : SuffixLaw P1)
+    (h2 : ∀ s buf, good s → (P2 s buf).2.2 = true → (P2 s buf).2.1.length < buf.length)
+    (s : S) (buf : Bytes) (hg : good s) (ht : (Cmp.seq2 get set lvalid P1 P2 s buf).2.2 = true) :
+    (Cmp.seq2 get set lvalid P1 P2 s buf).2.1.length < buf.length := by
+  unfold Cmp.seq2 at ht ⊢
+  by_cases hv : lvalid (get s) = true
+  · simp only [hv, if_true] at ht ⊢
+    exact h2 s buf hg ht
+  · simp only [hv, Bool.false_eq_true, if_false] at ht ⊢
+    by_cases hr : (P1 (get s) buf).2.2 = true
+    · simp only [hr, if_true] at ht ⊢
+      have := h2 _ _ (hset s (P1 (get s) buf).1 hg) ht
+      obtain ⟨pre, hpre⟩ := h1 (get s) buf
+      have hl := congrArg List.length hpre
+      simp only [List.length_append] at hl
+      omega
+    · simp [hr] at ht
+
+theorem CK_parse_true_lt (cfg : Cfg) (k : CK) (buf : Bytes) (ht : (CK.parse cfg k buf).2.2 = true) :
+    (CK.parse cfg k buf).2.1.length < buf.length := by
+  rw [Cmp.CK_parse_eq] at ht ⊢
+  exact seq2_true_lt _ _ _ _ _ (fun _ => True) (fun _ _ _ => trivial) (CH.parse_suffix cfg)
+    (fun s b _ h => CK_body_true_lt cfg s b h) k buf trivial ht
+
+theorem RQ_hdrs_true_lt (cfg : Cfg) (q : RQ) (buf : Bytes) (hh : q.headers.valid = false)
+    (ht : (Cmp.RQ_hdrs cfg q buf).2.2 = true) : (Cmp.RQ_hdrs cfg q buf).2.1.length < buf.length := by
+  unfold Cmp.RQ_hdrs at ht ⊢
+  simp only [hh, Bool.false_eq_true, if_false] at ht ⊢
+  by_cases hr : (MH.parse cfg q.headers buf).2.2 = true
+  · simp only [hr, Bool.not_true, Bool.false_eq_true, if_false]
+    exact MH_parse_true_lt cfg _ _ hr
+  · simp [hr] at ht
+
+theorem RQ_parse_true_lt (cfg : Cfg) (q : RQ) (buf : Bytes) (hh : q.headers.valid = false)
+    (ht : (RQ.parse cfg q buf).2.2 = true) : (RQ.parse cfg q buf).2.1.length < buf.length := by
+  rw [Cmp.RQ_parse_eq] at ht ⊢
+  exact seq2_true_lt RQ.line (fun q l => { q with line := l }) RL.valid _ _
+    (fun q => q.headers.valid = false) (fun _ _ h => h) (RL.parse_suffix cfg)
+    (fun s b hg h => RQ_hdrs_true_lt cfg s b hg h) q buf hh ht
+
+theorem RP_hdrs_true_lt (cfg : Cfg) (q : RP) (buf : Bytes) (hh : q.headers.valid = false)
+    (ht : (Cmp.RP_hdrs cfg q buf).2.2 = true) : (Cmp.RP_hdrs cfg q buf).2.1.length < buf.length := by
+  unfold Cmp.RP_hdrs at ht ⊢
+  simp only [hh, Bool.false_eq_true, if_false] at ht ⊢
+  by_cases hr : (MH.parse cfg q.headers buf).2.2 = true
+  · simp only [hr, Bool.not_true, Bool.false_eq_true, if_false]
+    exact MH_parse_true_lt cfg _ _ hr
+  · simp [hr] at ht
+
+theorem RP_parse_true_lt (cfg : Cfg) (q : RP) (buf : Bytes) (hh : q.headers.valid = false)
+    (ht : (RP.parse cfg q buf).2.2 = true) : (RP.parse cfg q buf).2.1.length < buf.length := by
+  rw [Cmp.RP_parse_eq] at ht ⊢
+  exact seq2_true_lt RP.line (fun q l => { q with line := l }) SL.valid _ _
+    (fun q => q.headers.valid = false) (fun _ _ h => h) (SL.parse_suffix cfg)
+    (fun s b hg h => RP_hdrs_true_lt cfg s b hg h) q buf hh ht
+
+/-! ### the `valid` flags after `rx_request::parse` / `rx_response::parse` -/
+
+theorem RQ_parse_flags (cfg : Cfg) (q : RQ) (buf : Bytes) (hh : q.headers.valid = false) :
+    ((RQ.parse cfg q buf).2.2 = true → (RQ.parse cfg q buf).1.valid = true) ∧
+    ((RQ.parse cfg q buf).2.2 = false →
+      (RQ.parse cfg q buf).1.valid = q.valid ∧ (RQ.parse cfg q buf).1.headers.valid = false) := by
+  unfold RQ.parse
+  dsimp only
+  by_cases hl : q.line.valid = true
+  · simp only [hl, if_true, Bool.not_true, Bool.false_eq_true, if_false, hh]
+    have hv := Cmp.MH_parse_valid cfg q.headers buf
+    by_cases hr : (MH.parse cfg q.headers buf).2.2 = true
+    · simp [hr]
+    · simp only [hr, hh, Bool.false_or] at hv
+      simp [hr, hv]
+  · simp only [hl, Bool.false_eq_true, if_false]
+    by_cases hlr : (RL.parse cfg q.line buf).2.2 = true
+    · simp only [hlr, Bool.not_true, Bool.false_eq_true, if_false, hh]
+      have hv := Cmp.MH_parse_valid cfg q.headers (RL.parse cfg q.line buf).2.1
+      by_cases hr : (MH.parse cfg q.headers (RL.parse cfg q.line buf).2.1).2.2 = true
+      · simp [hr]
+      · simp only [hr, hh, Bool.false_or] at hv
+        simp [hr, hv]
+    · simp [hlr, hh]
+
+theorem RP_parse_flags (cfg : Cfg) (q : RP) (buf : Bytes) (hh : q.headers.valid = false) :
+    ((RP.parse cfg q buf).2.2 = true → (RP.parse cfg q buf).1.valid = true) ∧
+    ((RP.parse cfg q buf).2.2 = false →
+      (RP.parse cfg q buf).1.valid = q.valid ∧ (RP.parse cfg q buf).1.headers.valid = false) := by
+  unfold RP.parse
+  dsimp only
+  by_cases hl : q.line.valid = true
+  · simp only [hl, if_true, Bool.not_true, Bool.false_eq_true, if_false, hh]
+    have hv := Cmp.MH_parse_valid cfg q.headers buf
+    by_cases hr : (MH.parse cfg q.headers buf).2.2 = true
+    · simp [hr]
+    · simp only [hr, hh, Bool.false_or] at hv
+      simp [hr, hv]
+  · simp only [hl, Bool.false_eq_true, if_false]
+    by_cases hlr : (SL.parse cfg q.line buf).2.2 = true
+    · simp only [hlr, Bool.not_true, Bool.false_eq_true, if_false, hh]
+      have hv := Cmp.MH_parse_valid cfg q.headers (SL.parse cfg q.line buf).2.1
+      by_cases hr : (MH.parse cfg q.headers (SL.parse cfg q.line buf).2.1).2.2 = true
+      · simp [hr]
+      · simp only [hr, hh, Bool.false_or] at hv
+        simp [hr, hv]
+    · simp [hlr, hh]
+
+
+/-! ### request receiver: the shape of `receive` -/
+
+/-- what `request_receiver::receive` does once the request head is complete -/
+def RR_tail (cfg : Cfg) (r : RR) (rp : Bool) (buf : Bytes) : RR × Bytes × Rx :=
+  if r.request.missingHost then ({ r with code := 400 }, buf, .invalid)
+  else if !r.request.headers.isChunked then RR.receiveBody cfg r rp buf
+  else RR.receiveChunk cfg r rp buf
+
+theorem RR_receive_valid (cfg : Cfg) (r : RR) (buf : Bytes) (hv : r.request.valid = true) :
+    RR.receive cfg r buf = RR_tail cfg r false buf := by
+  unfold RR.receive RR_tail
+  simp [hv]
+
+theorem RR_receive_parse (cfg : Cfg) (r : RR) (buf : Bytes) (hv : r.request.valid = false) :
+    ((RQ.parse cfg r.request buf).2.2 = true ∧
+      RR.receive cfg r buf =
+        RR_tail cfg { r with request := (RQ.parse cfg r.request buf).1 } true (RQ.parse cfg r.request buf).2.1) ∨
+    ((RQ.parse cfg r.request buf).2.2 = false ∧
+      ∃ r', RR.receive cfg r buf = (r', (RQ.parse cfg r.request buf).2.1, .invalid)) ∨
+    ((RQ.parse cfg r.request buf).2.2 = false ∧ (RQ.parse cfg r.request buf).2.1 = [] ∧
+      RR.receive cfg r buf =
+        ({ r with request := (RQ.parse cfg r.request buf).1 }, (RQ.parse cfg r.request buf).2.1, .incomplete)) := by
+  unfold RR.receive RR_tail
+  generalize RQ.parse cfg r.request buf = p
+  by_cases hp : p.2.2 = true
+  · left
+    simp [hv, hp]
+  · right
+    by_cases hi : (!p.2.1.isEmpty || ({ r with request := p.1 } : RR).request.fail) = true
+    · left
+      simp only [hv, hp, Bool.not_false, if_true] at hi ⊢
+      simp only [hi, if_true]
+      exact ⟨by simp, _, rfl⟩
+    · right
+      have he : p.2.1 = [] := by
+        cases h : p.2.1 with
+        | nil => rfl
+        | cons a b => simp [h] at hi
+      simp only [hv, hp, Bool.not_false, if_true] at hi ⊢
+      simp only [hi]
+      exact ⟨by simp, he, by simp⟩
+
+/-! ### request receiver: the Content-Length branch -/
+
+/-- the number of body bytes taken from the buffer: `min(|buf|, cl - |body|)` -/
+def takeLen (cl : Int) (body buf : Bytes) : Nat :=
+  if (buf.length : Int) > cl - body.length then (cl - body.length).toNat else buf.length
+
+theorem takeLen_pos (cl : Int) (body buf : Bytes) (hlt : (body.length : Int) < cl) (hne : buf ≠ []) :
+    0 < takeLen cl body buf := by
+  have hpos : 0 < buf.length := List.length_pos_iff.mpr hne
+  unfold takeLen
+  split <;> omega
+
+theorem takeLen_lt (cl : Int) (body buf : Bytes) (hle : (body.length : Int) ≤ cl)
+    (hne : ((body ++ buf.take (takeLen cl body buf)).length : Int) ≠ cl) :
+    ((body ++ buf.take (takeLen cl body buf)).length : Int) < cl := by
+  simp only [List.length_append, List.length_take] at hne ⊢
+  unfold takeLen at hne ⊢
+  split at hne <;> omega
+
+/-- `RR.receiveBody` after the TRACE check (`cl` is the Content-Length value) -/
+def RR_bodyCore (cfg : Cfg) (cl : Int) (r : RR) (requestParsed : Bool) (buf : Bytes) : RR × Bytes × Rx :=
+  let rxSize : Int := buf.length
+  if cl < 0 then ({ r with code := 400 }.clear, buf, .invalid)
+  else if cl > 0 && cl > (cfg.maxContent : Int) then ({ r with code := 413 }.clear, buf, .invalid)
+  else if !(cl > 0) && rxSize > 0 && (r.request.headers.fields.find (b!"content-length")).isEmpty then
+    ({ r with code := 411 }.clear, buf, .invalid)
+  else if requestParsed && rxSize < cl && r.request.expectContinue && !r.continueSent then
+    ({ r with code := 100 }, buf, .expectContinue)
+  else
+    let take : Nat := takeLen cl r.body buf
+    let r := { r with body := r.body ++ buf.take take }
+    let rest := buf.drop take
+    if (r.body.length : Int) == cl then
+      let isHead := r.request.isHead
+      let r := { r with isHead := isHead }
+      let r := if isHead && cfg.translateHead
+        then { r with request := { r.request with line := { r.request.line with method := (b!"GET") } } } else r
+      (r, rest, .valid)
+    else (r, rest, .incomplete)
+
+theorem RR_body_eq (cfg : Cfg) (r : RR) (rp : Bool) (buf : Bytes) :
+    RR.receiveBody cfg r rp buf =
+      if r.request.isTrace then
+        if r.request.headers.contentLength == 0 then
+          RR_bodyCore cfg r.request.headers.contentLength { r with code := 405 } rp buf
+        else ({ r with code := 400 }.clear, buf, .invalid)
+      else RR_bodyCore cfg r.request.headers.contentLength r rp buf := by
+  unfold RR.receiveBody
+  by_cases h1 : r.request.isTrace = true
+  · by_cases h2 : (r.request.headers.contentLength == 0) = true
+    · simp only [h1, h2, if_true]; rfl
+    · simp only [h1, h2, if_true]; rfl
+  · simp only [h1]; rfl
+
+theorem RR_bodyCore_rest (cfg : Cfg) (cl : Int) (r : RR) (rp : Bool) (buf : Bytes) :
+    ∃ k, (RR_bodyCore cfg cl r rp buf).2.1 = buf.drop k := by
+  unfold RR_bodyCore
+  dsimp only
+  repeat' split
+  all_goals first | exact ⟨0, rfl⟩ | exact ⟨_, rfl⟩
+
+theorem RR_bodyCore_progress (cfg : Cfg) (cl : Int) (r : RR) (buf : Bytes)
+    (hlt : (r.body.length : Int) < cl) (hne : buf ≠ []) :
+    (RR_bodyCore cfg cl r false buf).2.2 = .invalid ∨
+      (RR_bodyCore cfg cl r false buf).2.1.length < buf.length := by
+  have hpos : 0 < buf.length := List.length_pos_iff.mpr hne
+  have htk := takeLen_pos cl r.body buf hlt hne
+  unfold RR_bodyCore
+  dsimp only
+  split
+  · left; rfl
+  · split
+    · left; rfl
+    · split
+      · left; rfl
+      · simp only [Bool.false_and, Bool.false_eq_true, if_false]
+        right
+        split <;> (simp only [List.length_drop]; omega)
+
+theorem RR_bodyCore_ok (cfg : Cfg) (cl : Int) (r : RR) (rp : Bool) (buf : Bytes)
+    (hle : 0 ≤ cl → (r.body.length : Int) ≤ cl) (hrp : rp = true → r.body = []) :
+    (RR_bodyCore cfg cl r rp buf).2.2 = .invalid ∨
+      ((RR_bodyCore cfg cl r rp buf).1.request.valid = r.request.valid ∧
+       (RR_bodyCore cfg cl r rp buf).1.request.headers = r.request.headers ∧
+       ((RR_bodyCore cfg cl r rp buf).2.2 = .valid ∨
+        ((RR_bodyCore cfg cl r rp buf).1.body.length : Int) < cl)) := by
+  unfold RR_bodyCore
+  dsimp only
+  split
+  · left; rfl
+  · split
+    · left; rfl
+    · split
+      · left; rfl
+      · split
+        · rename_i h
+          right
+          refine ⟨rfl, rfl, Or.inr ?_⟩
+          simp only [Bool.and_eq_true, decide_eq_true_eq] at h
+          have := hrp h.1.1.1
+          simp only [this, List.length_nil]
+          omega
+        · split
+          · right
+            refine ⟨?_, ?_, Or.inl rfl⟩
+            · split <;> rfl
+            · split <;> rfl
+          · rename_i hc0 _ _ _ hne
+            right
+            refine ⟨rfl, rfl, Or.inr ?_⟩
+            simp only [beq_iff_eq] at hne
+            exact takeLen_lt cl r.body buf (hle (by omega)) hne
+
+theorem suffix_of_drop {buf rest : Bytes} (h : ∃ k, rest = buf.drop k) : ∃ pre, buf = pre ++ rest := by
+  obtain ⟨k, hk⟩ := h
+  exact ⟨buf.take k, by rw [hk, List.take_append_drop]⟩
+
+theorem RR_body_suffix (cfg : Cfg) (r : RR) (rp : Bool) (buf : Bytes) :
+    ∃ pre, buf = pre ++ (RR.receiveBody cfg r rp buf).2.1 := by
+  rw [RR_body_eq]
+  split
+  · split
+    · exact suffix_of_drop (RR_bodyCore_rest cfg _ _ rp buf)
+    · exact ⟨[], rfl⟩
+  · exact suffix_of_drop (RR_bodyCore_rest cfg _ _ rp buf)
+
+theorem RR_body_progress (cfg : Cfg) (r : RR) (buf : Bytes)
+    (hlt : (r.body.length : Int) < r.request.headers.contentLength) (hne : buf ≠ []) :
+    (RR.receiveBody cfg r false buf).2.2 = .invalid ∨
+      (RR.receiveBody cfg r false buf).2.1.length < buf.length := by
+  rw [RR_body_eq]
+  split
+  · split
+    · exact RR_bodyCore_progress cfg _ { r with code := 405 } buf hlt hne
+    · left; rfl
+  · exact RR_bodyCore_progress cfg _ r buf hlt hne
+
+theorem RR_body_ok (cfg : Cfg) (r : RR) (rp : Bool) (buf : Bytes)
+    (hle : 0 ≤ r.request.headers.contentLength → (r.body.length : Int) ≤ r.request.headers.contentLength)
+    (hrp : rp = true → r.body = []) :
+    (RR.receiveBody cfg r rp buf).2.2 = .invalid ∨
+      ((RR.receiveBody cfg r rp buf).1.request.valid = r.request.valid ∧
+       (RR.receiveBody cfg r rp buf).1.request.headers = r.request.headers ∧
+       ((RR.receiveBody cfg r rp buf).2.2 = .valid ∨
+        ((RR.receiveBody cfg r rp buf).1.body.length : Int) < r.request.headers.contentLength)) := by
+  rw [RR_body_eq]
+  split
+  · split
+    · exact RR_bodyCore_ok cfg _ { r with code := 405 } rp buf hle hrp
+    · left; rfl
+  · exact RR_bodyCore_ok cfg _ r rp buf hle hrp
+
+/-! ### request receiver: the chunked branch -/
+
+/-- `RR.receiveChunk` after the previous chunk has been dropped -/
+def RR_chunkCore (cfg : Cfg) (r : RR) (requestParsed : Bool) (buf : Bytes) : RR × Bytes × Rx :=
+  let early : Option Rx :=
+    if requestParsed then
+      if r.request.expectContinue && !r.continueSent then some .expectContinue
+      else if !cfg.concatChunks then some .valid else none
+    else none
+  match early with
+  | some .expectContinue => ({ r with code := 100 }, buf, .expectContinue)
+  | some x => (r, buf, x)
+  | none =>
+    let p := CK.parse cfg r.chunk buf
+    let r := { r with chunk := p.1 }
+    if !p.2.2 && (!p.2.1.isEmpty || r.chunk.fail) then ({ r with code := 400 }.clear, p.2.1, .invalid)
+    else if r.chunk.valid then
+      if cfg.concatChunks then
+        if r.chunk.isLast then (r, p.2.1, .valid)
+        else if r.body.length + r.chunk.data.length > cfg.maxContent then
+          ({ r with code := 413 }.clear, p.2.1, .invalid)
+        else ({ r with body := r.body ++ r.chunk.data }, p.2.1, .incomplete)
+      else (r, p.2.1, .chunk)
+    else (r, p.2.1, .incomplete)
+
+theorem RR_chunk_eq (cfg : Cfg) (r : RR) (rp : Bool) (buf : Bytes) :
+    RR.receiveChunk cfg r rp buf =
+      RR_chunkCore cfg (if r.chunk.valid then { r with chunk := {} } else r) rp buf := rfl
+
+theorem RR_chunkCore_facts (cfg : Cfg) (r : RR) (rp : Bool) (buf : Bytes) :
+    (∃ pre, buf = pre ++ (RR_chunkCore cfg r rp buf).2.1) ∧
+    ((RR_chunkCore cfg r rp buf).2.2 = .invalid ∨ (RR_chunkCore cfg r rp buf).1.request = r.request) ∧
+    (rp = false → buf ≠ [] → (RR_chunkCore cfg r rp buf).2.2 = .invalid ∨
+      (RR_chunkCore cfg r rp buf).2.1.length < buf.length) := by
+  unfold RR_chunkCore
+  dsimp only
+  split
+  · exact ⟨⟨[], rfl⟩, Or.inr rfl, fun h => by simp [h] at *⟩
+  · exact ⟨⟨[], rfl⟩, Or.inr rfl, fun h => by simp [h] at *⟩
+  · have hsuf := CK.parse_suffix cfg r.chunk buf
+    have hlt := CK_parse_true_lt cfg r.chunk buf
+    generalize CK.parse cfg r.chunk buf = p at *
+    have hpos : buf ≠ [] → 0 < buf.length := fun hne => List.length_pos_iff.mpr hne
+    by_cases hinv : (!p.2.2 && (!p.2.1.isEmpty || ({ r with chunk := p.1 } : RR).chunk.fail)) = true
+    · rw [if_pos hinv]
+      exact ⟨hsuf, Or.inl rfl, fun _ _ => Or.inl rfl⟩
+    · rw [if_neg hinv]
+      have hrest : buf ≠ [] → p.2.1.length < buf.length := by
+        intro hne
+        by_cases ht : p.2.2 = true
+        · exact hlt ht
+        · have : p.2.1 = [] := by
+            cases h : p.2.1 with
+            | nil => rfl
+            | cons a b => simp [ht, h] at hinv
+          rw [this]; exact hpos hne
+      repeat' split
+      all_goals first
+        | exact ⟨hsuf, Or.inl rfl, fun _ _ => Or.inl rfl⟩
+        | exact ⟨hsuf, Or.inr rfl, fun _ hne => Or.inr (hrest hne)⟩
+
+theorem RR_chunk_facts (cfg : Cfg) (r : RR) (rp : Bool) (buf : Bytes) :
+    (∃ pre, buf = pre ++ (RR.receiveChunk cfg r rp buf).2.1) ∧
+    ((RR.receiveChunk cfg r rp buf).2.2 = .invalid ∨ (RR.receiveChunk cfg r rp buf).1.request = r.request) ∧
+    (rp = false → buf ≠ [] → (RR.receiveChunk cfg r rp buf).2.2 = .invalid ∨
+      (RR.receiveChunk cfg r rp buf).2.1.length < buf.length) := by
+  rw [RR_chunk_eq]
+  obtain ⟨h1, h2, h3⟩ := RR_chunkCore_facts cfg (if r.chunk.valid then { r with chunk := {} } else r) rp buf
+  refine ⟨h1, ?_, h3⟩
+  rcases h2 with h2 | h2
+  · exact Or.inl h2
+  · right; rw [h2]; split <;> rfl
+
+theorem RR_tail_suffix (cfg : Cfg) (r : RR) (rp : Bool) (buf : Bytes) :
+    ∃ pre, buf = pre ++ (RR_tail cfg r rp buf).2.1 := by
+  unfold RR_tail
+  split
+  · exact ⟨[], rfl⟩
+  · split
+    · exact RR_body_suffix cfg r rp buf
+    · exact (RR_chunk_facts cfg r rp buf).1
+
+theorem RR_tail_le (cfg : Cfg) (r : RR) (rp : Bool) (buf : Bytes) :
+    (RR_tail cfg r rp buf).2.1.length ≤ buf.length := by
+  obtain ⟨pre, h⟩ := RR_tail_suffix cfg r rp buf
+  have := congrArg List.length h
+  simp only [List.length_append] at this
+  omega
+
+theorem RR_tail_progress (cfg : Cfg) (r : RR) (buf : Bytes)
+    (hok : r.request.headers.isChunked = false → (r.body.length : Int) < r.request.headers.contentLength)
+    (hne : buf ≠ []) :
+    (RR_tail cfg r false buf).2.2 = .invalid ∨ (RR_tail cfg r false buf).2.1.length < buf.length := by
+  unfold RR_tail
+  split
+  · left; rfl
+  · split
+    · rename_i hc
+      exact RR_body_progress cfg r buf (hok (by simpa using hc)) hne
+    · exact (RR_chunk_facts cfg r false buf).2.2 rfl hne
+
+end C05
+open C05
+
+/-! ### request receiver (server) -/
+
+theorem RR.receive_suffix (cfg : Cfg) (r : RR) (buf : Bytes) :
+    ∃ pre, buf = pre ++ (RR.receive cfg r buf).2.1 := by
+  by_cases hv : r.request.valid = true
+  · rw [RR_receive_valid cfg r buf hv]
+    exact RR_tail_suffix cfg r false buf
+  · have hv' : r.request.valid = false := by simpa using hv
+    obtain ⟨p1, hp1⟩ := RQ.parse_suffix cfg r.request buf
+    rcases RR_receive_parse cfg r buf hv' with ⟨_, he⟩ | ⟨_, _, he⟩ | ⟨_, _, he⟩
+    · rw [he]
+      obtain ⟨p2, hp2⟩ := RR_tail_suffix cfg { r with request := (RQ.parse cfg r.request buf).1 } true
+        (RQ.parse cfg r.request buf).2.1
+      exact ⟨p1 ++ p2, by rw [List.append_assoc, ← hp2, ← hp1]⟩
+    · rw [he]; exact ⟨p1, hp1⟩
+    · rw [he]; exact ⟨p1, hp1⟩
+
+/-- reachable-state invariant of the request receiver:
+    * while a request with a Content-Length body is being received the body is still incomplete;
+    * the header block is marked complete only together with the whole request head (`rx_request::parse`
+      sets both flags in the same step), so a `receive` call that completes the head consumes a byte;
+    * no body bytes are stored before the request head is complete (`clear` empties the body). -/
+def RR.Ok (r : RR) : Prop :=
+  (r.request.valid = true → r.request.headers.isChunked = false →
+    (r.body.length : Int) < r.request.headers.contentLength) ∧
+  (r.request.headers.valid = true → r.request.valid = true) ∧
+  (r.request.valid = false → r.body = [])
+
+theorem RR.ok_init : RR.Ok {} := by
+  refine ⟨?_, ?_, ?_⟩ <;> intro h <;> first | rfl | exact absurd h (by decide)
+
+theorem RR.receive_progress (cfg : Cfg) (r : RR) (buf : Bytes) (hok : RR.Ok r) (hne : buf ≠ []) :
+    (RR.receive cfg r buf).2.2 = .invalid ∨ (RR.receive cfg r buf).2.1.length < buf.length := by
+  obtain ⟨ok1, ok2, ok3⟩ := hok
+  by_cases hv : r.request.valid = true
+  · rw [RR_receive_valid cfg r buf hv]
+    exact RR_tail_progress cfg r buf (ok1 hv) hne
+  · have hv' : r.request.valid = false := by simpa using hv
+    have hh : r.request.headers.valid = false := by
+      cases h : r.request.headers.valid with
+      | false => rfl
+      | true => exact absurd (ok2 h) hv
+    rcases RR_receive_parse cfg r buf hv' with ⟨ht, he⟩ | ⟨_, _, he⟩ | ⟨_, hnil, he⟩
+    · rw [he]
+      right
+      have h1 := RQ_parse_true_lt cfg r.request buf hh ht
+      have h2 := RR_tail_le cfg { r with request := (RQ.parse cfg r.request buf).1 } true
+        (RQ.parse cfg r.request buf).2.1
+      omega
+    · rw [he]; left; rfl
+    · rw [he]; right
+      simp only [hnil, List.length_nil]
+      exact List.length_pos_iff.mpr hne
+
+namespace C05
+
+theorem RR_ok_clear (r : RR) : RR.Ok r.clear := by
+  refine ⟨?_, ?_, ?_⟩ <;> intro h <;> first | rfl | exact absurd h (by simp [RR.clear])
+
+/-- the server's reaction keeps the invariant when the result is INVALID, or VALID for a message that
+    is cleared, or when the receiver state itself satisfies it -/
+theorem RR_ok_after (cfg : Cfg) (s : RR) (x : Rx)
+    (h : x = .invalid ∨ (x = .valid ∧ s.request.headers.isChunked = false) ∨ RR.Ok s) :
+    RR.Ok (RR.afterResult cfg s x) := by
+  rcases h with h | ⟨h, hc⟩ | h
+  · subst h; exact RR_ok_clear s
+  · subst h
+    simp only [RR.afterResult, hc, Bool.not_false, Bool.true_or, if_true]
+    exact RR_ok_clear s
+  · cases x with
+    | valid => simp only [RR.afterResult]; split; exact RR_ok_clear s; exact h
+    | expectContinue => exact h
+    | chunk => simp only [RR.afterResult]; split; exact RR_ok_clear s; exact h
+    | invalid => exact RR_ok_clear s
+    | incomplete => exact h
+
+theorem RR_tail_ok (cfg : Cfg) (r : RR) (rp : Bool) (buf : Bytes) (hv : r.request.valid = true)
+    (hle : r.request.headers.isChunked = false → 0 ≤ r.request.headers.contentLength →
+      (r.body.length : Int) ≤ r.request.headers.contentLength)
+    (hrp : rp = true → r.body = []) :
+    RR.Ok (RR.afterResult cfg (RR_tail cfg r rp buf).1 (RR_tail cfg r rp buf).2.2) := by
+  unfold RR_tail
+  split
+  · exact RR_ok_after cfg _ _ (Or.inl rfl)
+  · split
+    · rename_i hc
+      have hc' : r.request.headers.isChunked = false := by simpa using hc
+      apply RR_ok_after
+      rcases RR_body_ok cfg r rp buf (hle hc') hrp with h | ⟨h1, h2, h3⟩
+      · exact Or.inl h
+      · rcases h3 with h3 | h3
+        · exact Or.inr (Or.inl ⟨h3, by rw [h2]; exact hc'⟩)
+        · refine Or.inr (Or.inr ⟨fun _ _ => by rw [h2]; exact h3, fun _ => by rw [h1]; exact hv, ?_⟩)
+          intro hf; rw [h1, hv] at hf; exact absurd hf (by decide)
+    · rename_i hc
+      have hc' : r.request.headers.isChunked = true := by simpa using hc
+      apply RR_ok_after
+      rcases (RR_chunk_facts cfg r rp buf).2.1 with h | h
+      · exact Or.inl h
+      · refine Or.inr (Or.inr ⟨?_, ?_, ?_⟩)
+        · intro _ hf; rw [h, hc'] at hf; exact absurd hf (by decide)
+        · intro _; rw [h]; exact hv
+        · intro hf; rw [h, hv] at hf; exact absurd hf (by decide)
+
+end C05
+
+theorem RR.ok_step (cfg : Cfg) (r : RR) (buf : Bytes) (hok : RR.Ok r) :
+    RR.Ok (RR.afterResult cfg (RR.receive cfg r buf).1 (RR.receive cfg r buf).2.2) := by
+  obtain ⟨ok1, ok2, ok3⟩ := hok
+  by_cases hv : r.request.valid = true
+  · rw [RR_receive_valid cfg r buf hv]
+    apply RR_tail_ok cfg r false buf hv
+    · intro hc _
+      have := ok1 hv hc
+      omega
+    · intro h; exact absurd h (by decide)
+  · have hv' : r.request.valid = false := by simpa using hv
+    have hh : r.request.headers.valid = false := by
+      cases h : r.request.headers.valid with
+      | false => rfl
+      | true => exact absurd (ok2 h) hv
+    obtain ⟨ft, ff⟩ := RQ_parse_flags cfg r.request buf hh
+    rcases RR_receive_parse cfg r buf hv' with ⟨ht, he⟩ | ⟨_, _, he⟩ | ⟨hf, _, he⟩
+    · rw [he]
+      apply RR_tail_ok cfg _ true _ (ft ht)
+      · intro _ h0
+        simp only [ok3 hv', List.length_nil]
+        exact h0
+      · intro _; exact ok3 hv'
+    · rw [he]; exact RR_ok_after cfg _ _ (Or.inl rfl)
+    · rw [he]
+      apply RR_ok_after
+      obtain ⟨f1, f2⟩ := ff hf
+      refine Or.inr (Or.inr ⟨?_, ?_, ?_⟩)
+      · intro h; rw [f1, hv'] at h; exact absurd h (by decide)
+      · intro h; rw [f2] at h; exact absurd h (by decide)
+      · intro _; exact ok3 hv'
+
+/-- the loop with any accumulator and any sufficient fuel -/
+theorem RR.readLoop_done_gen (cfg : Cfg) : ∀ (fuel : Nat) (r : RR) (buf : Bytes) (acc : List Delivery),
+    RR.Ok r → buf.length + 1 ≤ fuel →
+    ((RR.readLoop cfg fuel r buf acc).2.1 = [] ∨
+      ((RR.readLoop cfg fuel r buf acc).2.2.getLast?.map (·.rx)) = some .invalid) ∧
+    RR.Ok (RR.readLoop cfg fuel r buf acc).1 ∧
+    (RR.readLoop cfg fuel r buf acc).2.2.length ≤ acc.length + buf.length := by
+  intro fuel
+  induction fuel with
+  | zero => intro r buf acc _ hf; omega
+  | succ fuel ih =>
+    intro r buf acc hok hf
+    cases hb : buf with
+    | nil =>
+      simp [RR.readLoop, hok]
+    | cons c cs =>
+      have hne : buf ≠ [] := by rw [hb]; exact List.cons_ne_nil c cs
+      have hprog := RR.receive_progress cfg r buf hok hne
+      have hstep := RR.ok_step cfg r buf hok
+      rw [← hb]
+      have hemp : buf.isEmpty = false := by rw [hb]; rfl
+      have hlen : 0 < buf.length := List.length_pos_iff.mpr hne
+      simp only [RR.readLoop, hemp, Bool.false_eq_true, if_false]
+      by_cases hinv : (RR.receive cfg r buf).2.2 = .invalid
+      · simp only [hinv, beq_self_eq_true, if_true]
+        rw [hinv] at hstep
+        refine ⟨Or.inr (by simp), hstep, by simp; omega⟩
+      · have hbeq : ((RR.receive cfg r buf).2.2 == Rx.invalid) = false := by
+          cases h : (RR.receive cfg r buf).2.2 <;> first | rfl | exact absurd h hinv
+        simp only [hbeq, Bool.false_eq_true, if_false]
+        have hlt : (RR.receive cfg r buf).2.1.length < buf.length := by
+          rcases hprog with h | h
+          · exact absurd h hinv
+          · exact h
+        obtain ⟨i1, i2, i3⟩ := ih _ (RR.receive cfg r buf).2.1
+          ({ rx := (RR.receive cfg r buf).2.2, used := buf.length - (RR.receive cfg r buf).2.1.length,
+             snapshot := (RR.receive cfg r buf).1 } :: acc) hstep (by omega)
+        refine ⟨i1, i2, ?_⟩
+        simp only [List.length_cons] at i3
+        omega
+
+/-- the server's per-read loop never runs out of fuel `|read| + 1` -/
+theorem RR.readLoop_done (cfg : Cfg) (r : RR) (buf : Bytes) (hok : RR.Ok r) :
+    let res := RR.readLoop cfg (buf.length + 1) r buf []
+    (res.2.1 = [] ∨ (res.2.2.getLast?.map (·.rx)) = some .invalid) ∧ RR.Ok res.1 ∧
+    res.2.2.length ≤ buf.length := by
+  have h := RR.readLoop_done_gen cfg (buf.length + 1) r buf [] hok (Nat.le_refl _)
+  simpa using h
+
+/-! ### response receiver: the shape of `receive` -/
+
+namespace C05
+
+/-- "no Content-Length header and data present": the body then runs up to `max_body_size` -/
+def RS_noCl (r : RS) (buf : Bytes) : Bool :=
+  decide ((buf.length : Int) > 0) && r.response.headers.contentLength == 0 &&
+    (r.response.headers.fields.find (b!"content-length")).isEmpty
+
+/-- the effective body length limit -/
+def RS_cl (cfg : Cfg) (r : RS) (buf : Bytes) : Int :=
+  if RS_noCl r buf then (cfg.maxContent : Int) else r.response.headers.contentLength
+
+/-- the non-chunked branch of `response_receiver::receive` -/
+def RS_body (cfg : Cfg) (r : RS) (buf : Bytes) : RS × Bytes × Rx :=
+  if r.response.headers.contentLength < 0 then (r.clear, buf, .invalid)
+  else if decide ((buf.length : Int) > RS_cl cfg r buf - r.body.length) && RS_noCl r buf then
+    (r.clear, buf, .invalid)
+  else
+    let take : Nat := takeLen (RS_cl cfg r buf) r.body buf
+    let r := { r with body := r.body ++ buf.take take }
+    let rest := buf.drop take
+    if (r.body.length : Int) == r.response.headers.contentLength then (r, rest, .valid)
+    else (r, rest, .incomplete)
+
+/-- the chunked branch of `response_receiver::receive` after the previous chunk has been dropped -/
+def RS_chunkCore (cfg : Cfg) (r : RS) (responseParsed : Bool) (buf : Bytes) : RS × Bytes × Rx :=
+  if responseParsed then (r, buf, .valid)
+  else
+    let p := CK.parse cfg r.chunk buf
+    let r := { r with chunk := p.1 }
+    if !p.2.2 && (!p.2.1.isEmpty || r.chunk.fail) then (r.clear, p.2.1, .invalid)
+    else if r.chunk.valid then (r, p.2.1, .chunk)
+    else (r, p.2.1, .incomplete)
+
+/-- what `response_receiver::receive` does once the response head is complete -/
+def RS_tail (cfg : Cfg) (r : RS) (rp : Bool) (buf : Bytes) : RS × Bytes × Rx :=
+  if !r.response.headers.isChunked then RS_body cfg r buf
+  else RS_chunkCore cfg (if r.chunk.valid then { r with chunk := {} } else r) rp buf
+
+theorem RS_receive_valid (cfg : Cfg) (r : RS) (buf : Bytes) (hv : r.response.valid = true) :
+    RS.receive cfg r buf = RS_tail cfg r false buf := by
+  unfold RS.receive RS_tail
+  simp only [hv, Bool.not_true, Bool.false_eq_true, if_false]
+  rfl
+
+theorem RS_receive_parse (cfg : Cfg) (r : RS) (buf : Bytes) (hv : r.response.valid = false) :
+    ((RP.parse cfg r.response buf).2.2 = true ∧
+      RS.receive cfg r buf =
+        RS_tail cfg { r with response := (RP.parse cfg r.response buf).1 } true (RP.parse cfg r.response buf).2.1) ∨
+    ((RP.parse cfg r.response buf).2.2 = false ∧
+      ∃ r', RS.receive cfg r buf = (r', (RP.parse cfg r.response buf).2.1, .invalid)) ∨
+    ((RP.parse cfg r.response buf).2.2 = false ∧ (RP.parse cfg r.response buf).2.1 = [] ∧
+      RS.receive cfg r buf =
+        ({ r with response := (RP.parse cfg r.response buf).1 }, (RP.parse cfg r.response buf).2.1, .incomplete)) := by
+  unfold RS.receive RS_tail
+  generalize RP.parse cfg r.response buf = p
+  by_cases hp : p.2.2 = true
+  · left
+    simp only [hv, hp, Bool.not_false, Bool.not_true, if_true, Bool.false_eq_true, if_false, true_and]
+    rfl
+  · right
+    by_cases hi : (!p.2.1.isEmpty || ({ r with response := p.1 } : RS).response.fail) = true
+    · left
+      simp only [hv, hp, Bool.not_false, if_true] at hi ⊢
+      simp only [hi, if_true]
+      exact ⟨by simp, _, rfl⟩
+    · right
+      have he : p.2.1 = [] := by
+        cases h : p.2.1 with
+        | nil => rfl
+        | cons a b => simp [h] at hi
+      simp only [hv, hp, Bool.not_false, if_true] at hi ⊢
+      simp only [hi]
+      exact ⟨by simp, he, by simp⟩
+
+theorem RS_body_rest (cfg : Cfg) (r : RS) (buf : Bytes) : ∃ k, (RS_body cfg r buf).2.1 = buf.drop k := by
+  unfold RS_body
+  dsimp only
+  repeat' split
+  all_goals first | exact ⟨0, rfl⟩ | exact ⟨_, rfl⟩
+
+theorem RS_contentLength_absent (r : RS)
+    (h : (r.response.headers.fields.find (b!"content-length")).isEmpty = true) :
+    r.response.headers.contentLength = 0 := by
+  simp [MH.contentLength, h]
+
+theorem RS_body_progress (cfg : Cfg) (r : RS) (buf : Bytes)
+    (hok : (r.response.headers.fields.find (b!"content-length")).isEmpty = false →
+      (r.body.length : Int) < r.response.headers.contentLength)
+    (hne : buf ≠ []) :
+    (RS_body cfg r buf).2.2 = .invalid ∨ (RS_body cfg r buf).2.1.length < buf.length := by
+  have hpos : 0 < buf.length := List.length_pos_iff.mpr hne
+  unfold RS_body
+  dsimp only
+  split
+  · left; rfl
+  · split
+    · left; rfl
+    · rename_i hc0 hinv
+      right
+      have hlt : (r.body.length : Int) < RS_cl cfg r buf := by
+        by_cases hn : RS_noCl r buf = true
+        · simp only [hn, Bool.and_true, decide_eq_true_eq] at hinv
+          omega
+        · have hcl : RS_cl cfg r buf = r.response.headers.contentLength := by simp [RS_cl, hn]
+          rw [hcl]
+          apply hok
+          cases he : (r.response.headers.fields.find (b!"content-length")).isEmpty with
+          | false => rfl
+          | true =>
+            have h0 := RS_contentLength_absent r he
+            exfalso; apply hn
+            simp only [RS_noCl, h0, he, Bool.and_true, beq_self_eq_true, decide_eq_true_eq]
+            omega
+      have htk := takeLen_pos _ r.body buf hlt hne
+      split <;> (simp only [List.length_drop]; omega)
+
+theorem RS_body_ok (cfg : Cfg) (r : RS) (buf : Bytes)
+    (hpres : (r.response.headers.fields.find (b!"content-length")).isEmpty = false →
+      0 ≤ r.response.headers.contentLength → (r.body.length : Int) ≤ r.response.headers.contentLength)
+    (habs : (r.response.headers.fields.find (b!"content-length")).isEmpty = true →
+      r.body.length ≤ cfg.maxContent) :
+    (RS_body cfg r buf).2.2 = .invalid ∨
+      ((RS_body cfg r buf).1.response = r.response ∧
+       ((RS_body cfg r buf).2.2 = .valid ∨
+        (((r.response.headers.fields.find (b!"content-length")).isEmpty = false →
+            ((RS_body cfg r buf).1.body.length : Int) < r.response.headers.contentLength) ∧
+         ((r.response.headers.fields.find (b!"content-length")).isEmpty = true →
+            (RS_body cfg r buf).1.body.length ≤ cfg.maxContent)))) := by
+  unfold RS_body
+  dsimp only
+  split
+  · left; rfl
+  · split
+    · left; rfl
+    · rename_i hc0 hinv
+      split
+      · exact Or.inr ⟨rfl, Or.inl rfl⟩
+      · rename_i hneq
+        refine Or.inr ⟨rfl, Or.inr ⟨?_, ?_⟩⟩
+        · intro hp
+          have hn : RS_noCl r buf = false := by simp [RS_noCl, hp]
+          have hcl : RS_cl cfg r buf = r.response.headers.contentLength := by simp [RS_cl, hn]
+          simp only [beq_iff_eq] at hneq
+          rw [hcl] at hneq ⊢
+          exact takeLen_lt _ r.body buf (hpres hp (by omega)) hneq
+        · intro ha
+          have h0 := RS_contentLength_absent r ha
+          have hb := habs ha
+          simp only [List.length_append, List.length_take]
+          by_cases hn : RS_noCl r buf = true
+          · simp only [hn, Bool.and_true, decide_eq_true_eq] at hinv
+            have hcl : RS_cl cfg r buf = (cfg.maxContent : Int) := by simp [RS_cl, hn]
+            rw [hcl] at hinv ⊢
+            unfold takeLen
+            split <;> omega
+          · have hlen : buf.length = 0 := by
+              cases hl : buf.length with
+              | zero => rfl
+              | succ n =>
+                exfalso; apply hn
+                simp only [RS_noCl, h0, ha, Bool.and_true, beq_self_eq_true, decide_eq_true_eq, hl]
+                omega
+            omega
+
+theorem RS_chunkCore_facts (cfg : Cfg) (r : RS) (rp : Bool) (buf : Bytes) :
+    (∃ pre, buf = pre ++ (RS_chunkCore cfg r rp buf).2.1) ∧
+    ((RS_chunkCore cfg r rp buf).2.2 = .invalid ∨ (RS_chunkCore cfg r rp buf).1.response = r.response) ∧
+    (rp = false → buf ≠ [] → (RS_chunkCore cfg r rp buf).2.2 = .invalid ∨
+      (RS_chunkCore cfg r rp buf).2.1.length < buf.length) := by
+  unfold RS_chunkCore
+  dsimp only
+  split
+  · rename_i h
+    exact ⟨⟨[], rfl⟩, Or.inr rfl, fun h' => by rw [h'] at h; exact absurd h (by decide)⟩
+  · have hsuf := CK.parse_suffix cfg r.chunk buf
+    have hlt := CK_parse_true_lt cfg r.chunk buf
+    generalize CK.parse cfg r.chunk buf = p at *
+    have hpos : buf ≠ [] → 0 < buf.length := fun hne => List.length_pos_iff.mpr hne
+    by_cases hinv : (!p.2.2 && (!p.2.1.isEmpty || ({ r with chunk := p.1 } : RS).chunk.fail)) = true
+    · rw [if_pos hinv]
+      exact ⟨hsuf, Or.inl rfl, fun _ _ => Or.inl rfl⟩
+    · rw [if_neg hinv]
+      have hrest : buf ≠ [] → p.2.1.length < buf.length := by
+        intro hne
+        by_cases ht : p.2.2 = true
+        · exact hlt ht
+        · have : p.2.1 = [] := by
+            cases h : p.2.1 with
+            | nil => rfl
+            | cons a b => simp [ht, h] at hinv
+          rw [this]; exact hpos hne
+      split
+      all_goals exact ⟨hsuf, Or.inr rfl, fun _ hne => Or.inr (hrest hne)⟩
+
+theorem RS_tail_suffix (cfg : Cfg) (r : RS) (rp : Bool) (buf : Bytes) :
+    ∃ pre, buf = pre ++ (RS_tail cfg r rp buf).2.1 := by
+  unfold RS_tail
+  split
+  · exact suffix_of_drop (RS_body_rest cfg r buf)
+  · exact (RS_chunkCore_facts cfg _ rp buf).1
+
+theorem RS_tail_le (cfg : Cfg) (r : RS) (rp : Bool) (buf : Bytes) :
+    (RS_tail cfg r rp buf).2.1.length ≤ buf.length := by
+  obtain ⟨pre, h⟩ := RS_tail_suffix cfg r rp buf
+  have := congrArg List.length h
+  simp only [List.length_append] at this
+  omega
+
+theorem RS_tail_progress (cfg : Cfg) (r : RS) (buf : Bytes)
+    (hok : r.response.headers.isChunked = false →
+      (r.response.headers.fields.find (b!"content-length")).isEmpty = false →
+      (r.body.length : Int) < r.response.headers.contentLength)
+    (hne : buf ≠ []) :
+    (RS_tail cfg r false buf).2.2 = .invalid ∨ (RS_tail cfg r false buf).2.1.length < buf.length := by
+  unfold RS_tail
+  split
+  · rename_i hc
+    exact RS_body_progress cfg r buf (hok (by simpa using hc)) hne
+  · exact (RS_chunkCore_facts cfg _ false buf).2.2 rfl hne
+
+end C05
+
+/-! ### response receiver (client) -/
+
+theorem RS.receive_suffix (cfg : Cfg) (r : RS) (buf : Bytes) :
+    ∃ pre, buf = pre ++ (RS.receive cfg r buf).2.1 := by
+  by_cases hv : r.response.valid = true
+  · rw [RS_receive_valid cfg r buf hv]
+    exact RS_tail_suffix cfg r false buf
+  · have hv' : r.response.valid = false := by simpa using hv
+    obtain ⟨p1, hp1⟩ := RP.parse_suffix cfg r.response buf
+    rcases RS_receive_parse cfg r buf hv' with ⟨_, he⟩ | ⟨_, _, he⟩ | ⟨_, _, he⟩
+    · rw [he]
+      obtain ⟨p2, hp2⟩ := RS_tail_suffix cfg { r with response := (RP.parse cfg r.response buf).1 } true
+        (RP.parse cfg r.response buf).2.1
+      exact ⟨p1 ++ p2, by rw [List.append_assoc, ← hp2, ← hp1]⟩
+    · rw [he]; exact ⟨p1, hp1⟩
+    · rw [he]; exact ⟨p1, hp1⟩
+
+/-- reachable-state invariant of the response receiver:
+    * while a response without chunked encoding is being received: with a Content-Length header the
+      body is still incomplete; without one the stored body does not exceed `max_body_size`;
+    * the header block is marked complete only together with the whole response head
+      (`rx_response::parse` sets both flags in the same step), so a `receive` call that completes the
+      head consumes a byte;
+    * no body bytes are stored before the response head is complete (`clear` empties the body). -/
+def RS.Ok (cfg : Cfg) (r : RS) : Prop :=
+  (r.response.valid = true → r.response.headers.isChunked = false →
+    ((r.response.headers.fields.find (b!"content-length")).isEmpty = false →
+        (r.body.length : Int) < r.response.headers.contentLength) ∧
+    ((r.response.headers.fields.find (b!"content-length")).isEmpty = true →
+        r.body.length ≤ cfg.maxContent)) ∧
+  (r.response.headers.valid = true → r.response.valid = true) ∧
+  (r.response.valid = false → r.body = [])
+
+theorem RS.ok_init (cfg : Cfg) : RS.Ok cfg {} := by
+  refine ⟨?_, ?_, ?_⟩ <;> intro h <;> first | rfl | exact absurd h (by decide)
+
+theorem RS.receive_progress (cfg : Cfg) (r : RS) (buf : Bytes) (hok : RS.Ok cfg r) (hne : buf ≠ []) :
+    (RS.receive cfg r buf).2.2 = .invalid ∨ (RS.receive cfg r buf).2.1.length < buf.length := by
+  obtain ⟨ok1, ok2, ok3⟩ := hok
+  by_cases hv : r.response.valid = true
+  · rw [RS_receive_valid cfg r buf hv]
+    exact RS_tail_progress cfg r buf (fun hc => (ok1 hv hc).1) hne
+  · have hv' : r.response.valid = false := by simpa using hv
+    have hh : r.response.headers.valid = false := by
+      cases h : r.response.headers.valid with
+      | false => rfl
+      | true => exact absurd (ok2 h) hv
+    rcases RS_receive_parse cfg r buf hv' with ⟨ht, he⟩ | ⟨_, _, he⟩ | ⟨_, hnil, he⟩
+    · rw [he]
+      right
+      have h1 := RP_parse_true_lt cfg r.response buf hh ht
+      have h2 := RS_tail_le cfg { r with response := (RP.parse cfg r.response buf).1 } true
+        (RP.parse cfg r.response buf).2.1
+      omega
+    · rw [he]; left; rfl
+    · rw [he]; right
+      simp only [hnil, List.length_nil]
+      exact List.length_pos_iff.mpr hne
+
+namespace C05
+
+theorem RS_ok_clear (cfg : Cfg) (r : RS) : RS.Ok cfg r.clear := RS.ok_init cfg
+
+/-- the client's reaction keeps the invariant when the result is INVALID, or VALID for a message that
+    is cleared, or when the receiver state itself satisfies it -/
+theorem RS_ok_after (cfg : Cfg) (s : RS) (x : Rx)
+    (h : x = .invalid ∨ (x = .valid ∧ s.response.headers.isChunked = false) ∨ RS.Ok cfg s) :
+    RS.Ok cfg (RS.afterResult s x) := by
+  rcases h with h | ⟨h, hc⟩ | h
+  · subst h; exact RS_ok_clear cfg s
+  · subst h
+    simp only [RS.afterResult, hc, Bool.not_false, if_true]
+    exact RS_ok_clear cfg s
+  · cases x with
+    | valid => simp only [RS.afterResult]; split; exact RS_ok_clear cfg s; exact h
+    | expectContinue => exact h
+    | chunk => simp only [RS.afterResult]; split; exact RS_ok_clear cfg s; exact h
+    | invalid => exact RS_ok_clear cfg s
+    | incomplete => exact h
+
+theorem RS_tail_ok (cfg : Cfg) (r : RS) (rp : Bool) (buf : Bytes) (hv : r.response.valid = true)
+    (hpres : r.response.headers.isChunked = false →
+      (r.response.headers.fields.find (b!"content-length")).isEmpty = false →
+      0 ≤ r.response.headers.contentLength → (r.body.length : Int) ≤ r.response.headers.contentLength)
+    (habs : r.response.headers.isChunked = false →
+      (r.response.headers.fields.find (b!"content-length")).isEmpty = true →
+      r.body.length ≤ cfg.maxContent) :
+    RS.Ok cfg (RS.afterResult (RS_tail cfg r rp buf).1 (RS_tail cfg r rp buf).2.2) := by
+  unfold RS_tail
+  split
+  · rename_i hc
+    have hc' : r.response.headers.isChunked = false := by simpa using hc
+    apply RS_ok_after
+    rcases RS_body_ok cfg r buf (hpres hc') (habs hc') with h | ⟨h1, h2⟩
+    · exact Or.inl h
+    · rcases h2 with h2 | h2
+      · exact Or.inr (Or.inl ⟨h2, by rw [h1]; exact hc'⟩)
+      · refine Or.inr (Or.inr ⟨fun _ _ => by rw [h1]; exact h2, fun _ => by rw [h1]; exact hv, ?_⟩)
+        intro hf; rw [h1, hv] at hf; exact absurd hf (by decide)
+  · rename_i hc
+    have hc' : r.response.headers.isChunked = true := by simpa using hc
+    apply RS_ok_after
+    rcases (RS_chunkCore_facts cfg (if r.chunk.valid then { r with chunk := {} } else r) rp buf).2.1 with h | h
+    · exact Or.inl h
+    · have hr : (if r.chunk.valid = true then ({ r with chunk := {} } : RS) else r).response = r.response := by
+        split <;> rfl
+      rw [hr] at h
+      refine Or.inr (Or.inr ⟨?_, ?_, ?_⟩)
+      · intro _ hf; rw [h, hc'] at hf; exact absurd hf (by decide)
+      · intro _; rw [h]; exact hv
+      · intro hf; rw [h, hv] at hf; exact absurd hf (by decide)
+
+end C05
+
+theorem RS.ok_step (cfg : Cfg) (r : RS) (buf : Bytes) (hok : RS.Ok cfg r) :
+    RS.Ok cfg (RS.afterResult (RS.receive cfg r buf).1 (RS.receive cfg r buf).2.2) := by
+  obtain ⟨ok1, ok2, ok3⟩ := hok
+  by_cases hv : r.response.valid = true
+  · rw [RS_receive_valid cfg r buf hv]
+    apply RS_tail_ok cfg r false buf hv
+    · intro hc hp _
+      have := (ok1 hv hc).1 hp
+      omega
+    · intro hc ha
+      exact (ok1 hv hc).2 ha
+  · have hv' : r.response.valid = false := by simpa using hv
+    have hh : r.response.headers.valid = false := by
+      cases h : r.response.headers.valid with
+      | false => rfl
+      | true => exact absurd (ok2 h) hv
+    obtain ⟨ft, ff⟩ := RP_parse_flags cfg r.response buf hh
+    rcases RS_receive_parse cfg r buf hv' with ⟨ht, he⟩ | ⟨_, _, he⟩ | ⟨hf, _, he⟩
+    · rw [he]
+      apply RS_tail_ok cfg _ true _ (ft ht)
+      · intro _ _ h0
+        simp only [ok3 hv', List.length_nil]
+        exact h0
+      · intro _ _
+        simp only [ok3 hv', List.length_nil]
+        exact Nat.zero_le _
+    · rw [he]; exact RS_ok_after cfg _ _ (Or.inl rfl)
+    · rw [he]
+      apply RS_ok_after
+      obtain ⟨f1, f2⟩ := ff hf
+      refine Or.inr (Or.inr ⟨?_, ?_, ?_⟩)
+      · intro h; rw [f1, hv'] at h; exact absurd h (by decide)
+      · intro h; rw [f2] at h; exact absurd h (by decide)
+      · intro _; exact ok3 hv'
+
+/-- the loop with any accumulator and any sufficient fuel -/
+theorem RS.readLoop_done_gen (cfg : Cfg) : ∀ (fuel : Nat) (r : RS) (buf : Bytes) (acc : List RDelivery),
+    RS.Ok cfg r → buf.length + 1 ≤ fuel →
+    ((RS.readLoop cfg fuel r buf acc).2.1 = [] ∨
+      ((RS.readLoop cfg fuel r buf acc).2.2.getLast?.map (·.rx)) = some .invalid) ∧
+    RS.Ok cfg (RS.readLoop cfg fuel r buf acc).1 ∧
+    (RS.readLoop cfg fuel r buf acc).2.2.length ≤ acc.length + buf.length := by
+  intro fuel
+  induction fuel with
+  | zero => intro r buf acc _ hf; omega
+  | succ fuel ih =>
+    intro r buf acc hok hf
+    cases hb : buf with
+    | nil =>
+      simp [RS.readLoop, hok]
+    | cons c cs =>
+      have hne : buf ≠ [] := by rw [hb]; exact List.cons_ne_nil c cs
+      have hprog := RS.receive_progress cfg r buf hok hne
+      have hstep := RS.ok_step cfg r buf hok
+      rw [← hb]
+      have hemp : buf.isEmpty = false := by rw [hb]; rfl
+      have hlen : 0 < buf.length := List.length_pos_iff.mpr hne
+      simp only [RS.readLoop, hemp, Bool.false_eq_true, if_false]
+      by_cases hinv : (RS.receive cfg r buf).2.2 = .invalid
+      · simp only [hinv, beq_self_eq_true, if_true]
+        rw [hinv] at hstep
+        refine ⟨Or.inr (by simp), hstep, by simp; omega⟩
+      · have hbeq : ((RS.receive cfg r buf).2.2 == Rx.invalid) = false := by
+          cases h : (RS.receive cfg r buf).2.2 <;> first | rfl | exact absurd h hinv
+        simp only [hbeq, Bool.false_eq_true, if_false]
+        have hlt : (RS.receive cfg r buf).2.1.length < buf.length := by
+          rcases hprog with h | h
+          · exact absurd h hinv
+          · exact h
+        obtain ⟨i1, i2, i3⟩ := ih _ (RS.receive cfg r buf).2.1
+          ({ rx := (RS.receive cfg r buf).2.2, used := buf.length - (RS.receive cfg r buf).2.1.length,
+             snapshot := (RS.receive cfg r buf).1 } :: acc) hstep (by omega)
+        refine ⟨i1, i2, ?_⟩
+        simp only [List.length_cons] at i3
+        omega
+
+/-- the client's per-read loop never runs out of fuel `|read| + 1` -/
+theorem RS.readLoop_done (cfg : Cfg) (r : RS) (buf : Bytes) (hok : RS.Ok cfg r) :
+    let res := RS.readLoop cfg (buf.length + 1) r buf []
+    (res.2.1 = [] ∨ (res.2.2.getLast?.map (·.rx)) = some .invalid) ∧ RS.Ok cfg res.1 ∧
+    res.2.2.length ≤ buf.length := by
+  have h := RS.readLoop_done_gen cfg (buf.length + 1) r buf [] hok (Nat.le_refl _)
+  simpa using h
+
 end Via
